@@ -382,6 +382,7 @@ func (s *VerifSched) StatementBegin(kind string) {
 	}
 	s.boundary(t, "stmt-begin:"+kind)
 	s.stmtKind, s.stmtOpen, s.changed, s.logged = kind, true, false, false
+	s.ownHeaderWritten = false // (the header an earlier statement's own flush ended with is behind a statement boundary)
 	s.heldBack = nil
 }
 
